@@ -73,6 +73,14 @@ def build_inputs(tier):
         for (o, c), m in sorted(xonshgen.METHODS.items()):
             exp = f"__xonsh__.{m}({', '.join(repr(w) for w in words)})"
             cases.append(("plain", f"{o}{cmd}{c}", exp, ["continuation-col0"]))
+    # quoted words that span a line end, in LF and CRLF sources: passed verbatim, line end included
+    q3 = '"' * 3
+    for nl in ["\n", "\r\n"]:
+        for cmd, words in [(f"echo {q3}a{nl}b{q3} c", ["echo", f"{q3}a{nl}b{q3}", "c"]), (f"printf 'x\\{nl}y' z", ["printf", f"'x\\{nl}y'", "z"]),
+                           (f"git commit -m {q3}one{nl}{nl}two{q3}", ["git", "commit", "-m", f"{q3}one{nl}{nl}two{q3}"]), (f"echo '''k{nl}''' \"l\"", ["echo", f"'''k{nl}'''", '"l"'])]:
+            for (o, c), m in sorted(xonshgen.METHODS.items()):
+                exp = f"__xonsh__.{m}({', '.join(repr(w) for w in words)})"
+                cases.append(("plain", f"{o}{cmd}{c}", exp, ["multiline-quoted-word"]))
     # plain-word-only commands checked against str.split()
     for _ in range(400 * N):
         n = r.randint(1, 6)
